@@ -241,7 +241,8 @@ def _(run):
         s.ghost['items_len'] = z3.FreshConst(I, 'len_' + tag); s.ghost['items_arr'] = z3.FreshConst(IA, 'arr_' + tag)
 
     def loop(e, node, s):
-        if ast.unparse(node.iter) != 'self.normalize(obj).split()': raise Unsupported('loop header drifted')
+        # the items are the maximal runs of non-whitespace of the normalised text (XML whitespace only: ghost sequence `chunks`)
+        if ast.unparse(node.iter) != 'filter(None, self._REGEX_SPACES.split(self.normalize(obj)))': raise Unsupported('loop header drifted')
         e.oblige('loop-entry', s, inv(s, z3.IntVal(0))); outs = []
         i = z3.FreshConst(I, 'i'); sb = s.fork(); havoc(sb, 'body')
         invf = inv(sb, i)
